@@ -234,6 +234,46 @@ def case_KNOWN_subclass_adds_a_constructor_below_an_invariant_class_without_init
         return "a subclass that adds __init__(self, v) can not be instantiated any more: %s" % e
 
 
+def case_stacked_decorator_order():
+    """C16: stacked decorators are evaluated from the one nearest the function outwards, stopping at the first falsy one,
+    whose error is raised (1..5 decorators x every truth assignment, preconditions and postconditions)."""
+    import itertools
+    for kind in ("require", "ensure"):
+        for n in range(1, 6):
+            for truth in itertools.product([True, False], repeat=n):
+                log = []
+                errs = [type("E%d" % i, (Exception,), {}) for i in range(n)]
+
+                def mk(i):  # named functions: a lambda outside a decorator line has no source text for the message
+                    if kind == "require":
+                        def cond(x):
+                            log.append(i)
+                            return truth[i]
+                    else:
+                        def cond(result):
+                            log.append(i)
+                            return truth[i]
+                    return cond
+
+                def f(x):
+                    return x
+                g = f
+                for i in range(n):  # i == 0 is the decorator nearest the function
+                    g = getattr(icontract, kind)(mk(i), error=errs[i])(g)
+                first = truth.index(False) if False in truth else None
+                want_log = list(range(n)) if first is None else list(range(first + 1))
+                try:
+                    g(1)
+                    got = None
+                except Exception as e:
+                    got = type(e)
+                want = None if first is None else errs[first]
+                if log != want_log or got is not want:
+                    return "%d stacked @%s with truth values %s (nearest first): evaluated %s, raised %s; expected %s, %s" % (
+                        n, kind, list(truth), log, getattr(got, "__name__", None), want_log, getattr(want, "__name__", None))
+    return None
+
+
 CASES = {n[5:]: f for n, f in sorted(globals().items()) if n.startswith("case_")}
 
 
